@@ -79,6 +79,14 @@ pub open spec fn e_exception(labels: Labels, p: PoolWrite, e: Exception) -> (Seq
     let a = pw_opt_class(p, e.catch);
     (be16(lab_pc(labels, e.start)) + be16(lab_pc(labels, e.end)) + be16(lab_pc(labels, e.handler)) + be16(a.0), a.1)
 }
+// JVMS 4.7.23 bootstrap_methods entry: u2 bootstrap_method_ref, u2 num_bootstrap_arguments, u2 bootstrap_arguments[num]
+pub uninterp spec fn pw_handle(p: PoolWrite, h: Handle) -> (u16, PoolWrite);
+impl PoolWrite { #[verifier::external_body] pub fn put_method_handle(&mut self, value: &Handle) -> (res: Result<u16, VErr>) ensures res matches Ok(i) ==> (i, *final(self)) == pw_handle(*old(self), *value) { unimplemented!() } }
+pub open spec fn args_bytes(a: Seq<u16>, k: int) -> Seq<u8> decreases k { if 0 < k <= a.len() { args_bytes(a, k - 1) + be16(a[k - 1]) } else { Seq::<u8>::empty() } }
+pub open spec fn e_bootstrap(p: PoolWrite, m: BootstrapMethodWrite) -> (Seq<u8>, PoolWrite) {
+    let a = pw_handle(p, *m.handle);
+    (be16(a.0) + be16(m.arguments@.len() as u16) + args_bytes(m.arguments@, m.arguments@.len() as int), a.1)
+}
 // the first k entries of a list, each through the pool the previous one left
 pub open spec fn w_fold<X>(p: PoolWrite, s: Seq<X>, k: int, f: spec_fn(PoolWrite, X) -> (Seq<u8>, PoolWrite)) -> (Seq<u8>, PoolWrite) decreases k {
     if 0 < k <= s.len() { let r = w_fold(p, s, k - 1, f); let e = f(r.1, s[k - 1]); (r.0 + e.0, e.1) } else { (Seq::<u8>::empty(), p) }
@@ -147,19 +155,25 @@ def bind(pat):
         return f'let {m.group(1)} = &value.0; let {m.group(2)} = value.1;'
     if re.fullmatch(r'\w+', pat):
         return f'let {pat} = value;'
+    m = re.fullmatch(r'&(\w+)', pat)
+    if m:
+        return f'let {m.group(1)} = *value;'
     raise CutError(f'closure parameter pattern `{pat}` not handled')
 
 
 def beta_write_slice(u, body):
-    """`w.write_slice(LIST, |w, n| SIZE, |w, x| ELEM)` -> the body of ClassWrite::write_slice (cut from duke/src/lib.rs) with put_size(self, slice.len()) /
+    """`w.write_slice(LIST, |w, n| SIZE, |w, x| ELEM)` (anywhere in the text) -> the body of ClassWrite::write_slice (cut from duke/src/lib.rs) with put_size(self, slice.len()) /
     put_element(self, value) replaced by the closure bodies, their parameters bound by `let`"""
-    mask = code_mask(body)
-    code = ''.join(c if m_ != ' ' or c in ' \t\n' else ' ' for c, m_ in zip(body, mask))
-    # comments are blanks in the mask; string literals do not occur in these closures
-    code = re.sub(r'//[^\n]*', '', body) if '"' not in body else None
-    if code is None:
+    if '"' in body:
         raise CutError('write_slice closure holds a string literal: not handled')
-    m = re.search(r'w\.write_slice\(\s*(\w+)\s*,\s*\|w, (\w+)\|\s*(.*?),\s*\|w, ([^|]+)\|\s*(.*)\)\s*$', code.strip(), re.S)
+    code = re.sub(r'//[^\n]*', lambda m: ' ' * len(m.group(0)), body)      # comments blanked, offsets kept
+    mask = code_mask(code)
+    m0 = re.search(r'w\.write_slice\(', mask)
+    if not m0:
+        raise CutError('closure has no w.write_slice(..) call any more')
+    op = m0.end() - 1
+    cl = match_close(mask, op)
+    m = re.fullmatch(r'\s*(&?[\w.]+)\s*,\s*\|w, (\w+)\|\s*(.*?),\s*\|w, ([^|]+)\|\s*(.*)', code[op + 1:cl], re.S)
     if not m:
         raise CutError('closure is no longer of the shape w.write_slice(LIST, |w, n| SIZE, |w, x| ELEM)')
     lst, n, size_e, x, elem_e = m.groups()
@@ -173,16 +187,17 @@ def beta_write_slice(u, body):
     ws = ' '.join(ws.split())
     u.drop('w.write_slice(LIST, |w, n| SIZE, |w, x| ELEM) beta-reduced: the body of ClassWrite::write_slice (duke/src/lib.rs) with put_size(self, slice.len()) / put_element(self, value) '
            'replaced by the closure bodies, n / x bound by let, self = w')
-    pad = '\n' * body.count('\n')
-    return '{ let slice = ' + lst + '; ' + ws + ' }' + pad, lst
+    pad = '\n' * code[m0.start():cl + 1].count('\n')
+    return code[:m0.start()] + '{ let slice = ' + lst + '; ' + ws + ' }' + pad + code[cl + 1:], lst.lstrip('&')
 
 
 def build(u):
     u.preamble('common.rs')
     u.preamble('bytes.rs')
     add_classwrite(u, [])
-    opaque(u, ['ClassName', 'PackageName', 'JavaString', 'ParameterName', 'InnerClassFlags', 'ParameterFlags', 'PoolWrite', 'Labels', 'Label'])
+    opaque(u, ['ClassName', 'PackageName', 'JavaString', 'ParameterName', 'InnerClassFlags', 'ParameterFlags', 'PoolWrite', 'Labels', 'Label', 'Handle'])
     u.item(T + 'method/code.rs', 'struct', 'Exception', derives=[])
+    u.item('duke/src/simple_class_writer/pool.rs', 'struct', 'BootstrapMethodWrite', derives=[])
     u.item(T + 'class.rs', 'struct', 'InnerClass', derives=[])
     u.item(T + 'method.rs', 'struct', 'MethodParameter', derives=[])
     u.raw(STUBS)
@@ -218,4 +233,30 @@ def build(u):
                         f'res.is_ok() ==> {n} <= {mx} && final(w).bytes() == {W0} + {cnt} + w_fold({P0}, {lst}@, {n} as int, {f}).0'),
                       C(f'C02.warm.{attr}.pool-holds-exactly-the-puts-of-the-entries-in-order', f'res.is_ok() ==> *final(pool) == w_fold({P0}, {lst}@, {n} as int, {f}).1')])
         first = False
+    # ---- BootstrapMethods: a loop over the methods the pool collected, each with a nested write_slice over its argument indices
+    body, line = closure_of(u, 'write', 'BOOTSTRAP_METHODS')
+    body, got = beta_write_slice(u, body)
+    if got != 'bootstrap_method.arguments':
+        raise CutError(f'BOOTSTRAP_METHODS: the nested list is `{got}`, the contract knows `bootstrap_method.arguments`')
+    M, W0, P0 = 'bootstrap_methods@', 'old(w).bytes()', '*old(pool)'
+    n = f'{M}.len()'
+    cnt = f'be16({n} as u16)'
+    f = '|q: PoolWrite, x| e_bootstrap(q, x)'
+    inv = (f'{n} <= 0xffff && w.bytes() == {W0} + {cnt} + w_fold({P0}, {M}, iter.index@ as int, {f}).0 '
+           f'&& *pool == w_fold({P0}, {M}, iter.index@ as int, {f}).1 && w.infallible() == old(w).infallible()')
+    A = 'bm.arguments@'
+    u.fn(W, 'write::warm_klass_BOOTSTRAP_METHODS', ret='res', proof_label='C02.warm.BOOTSTRAP_METHODS.inv.count-then-the-entries-so-far-each-through-the-pool-the-previous-one-left',
+         synth=dict(sig='pub fn warm_klass_BOOTSTRAP_METHODS<Wr: ClassWrite>(w: &mut Wr, pool: &mut PoolWrite, bootstrap_methods: Vec<BootstrapMethodWrite>) -> Result<()>', body='{' + body + '}', line=line),
+         opt_rewrites=[(r'\bfor (\w+) in (bootstrap_methods) \{', r'for \1 in iter: \2 {')],
+         loops={0: dict(invariant=[C('C02.warm.BOOTSTRAP_METHODS.inv.count-then-the-entries-so-far-each-through-the-pool-the-previous-one-left', inv)],
+                        body_start=f'let ghost bm = bootstrap_method; let ghost k0 = iter.index@ as int; let ghost b0 = w.bytes(); proof {{ assert(bm == {M}[k0]); lemma_fold_step({P0}, {M}, k0, {f}, {W0} + {cnt}); }}',
+                        body_end=f'proof {{ assert(w.bytes() =~= b0 + (be16(pw_handle(w_fold({P0}, {M}, k0, {f}).1, *bm.handle).0) + be16({A}.len() as u16) + args_bytes({A}, {A}.len() as int))); '
+                                 f'assert(w.bytes() =~= {W0} + {cnt} + w_fold({P0}, {M}, k0 + 1, {f}).0); }}'),
+                1: dict(before='let ghost b1 = w.bytes(); let ghost p1 = *pool;',
+                        invariant=[C('C02.warm.BOOTSTRAP_METHODS.inv.argument-indices-so-far',
+                                     f'slice@ == {A} && {A}.len() <= 0xffff && w.bytes() == b1 + args_bytes({A}, iter.index@ as int) && *pool == p1 && w.infallible() == old(w).infallible()')],
+                        body_end=f'proof {{ assert(w.bytes() =~= b1 + args_bytes({A}, iter.index@ as int + 1)); }}')},
+         ensures=[C('C02.warm.BOOTSTRAP_METHODS.count-equals-the-number-of-methods-each-with-its-handle-its-argument-count-and-its-argument-indices',
+                    f'res.is_ok() ==> {n} <= 0xffff && final(w).bytes() == {W0} + {cnt} + w_fold({P0}, {M}, {n} as int, {f}).0'),
+                  C('C02.warm.BOOTSTRAP_METHODS.pool-holds-exactly-the-puts-of-the-handles-in-order', f'res.is_ok() ==> *final(pool) == w_fold({P0}, {M}, {n} as int, {f}).1')])
     u.drop('closure bodies of write_attribute(&mut buffer, pool, attribute::X, |w, pool| { .. }) lifted to functions warm_<level>_<X>(w, pool, <captured list>) { <closure body> }')
